@@ -48,6 +48,11 @@ def run_c04(ctx):
 
 def run_c17(ctx):
     jobs, n = _jobs(ctx, "nocl", "h_nocl", lambda lang, label: label.startswith(NOCL_LABELS) and "async" not in label)
+    for lang in skel.LANGS:
+        for label in skel.extra_programs(lang):
+            if label.startswith("x-decl-"):
+                n += 1
+                jobs.append(Job("skel_h.py", "h_nocl", {"lang": lang, "tier": ctx.tier, "label": label, "mode": "nocl"}, 150 if ctx.quick() else 600, 40, tag=f"{lang}/{label}/nocl", meta={"tolerant": False, "twin": False}))
     ctx.bounds.update({"part 2 skeletons": f"{n} canonical programs (<= 3 functions; with nesting only the presence of the functions related to the marked one is prescribed)", "marker line": "any line >= 1 (solver variable), together with <= 10 unbounded line gaps"})
     ctx.assumptions += COMMON_ASSUME
     return ctx.run_xh(jobs)
